@@ -45,6 +45,12 @@ def generate(reg, only=None):
         if only and q not in only:
             continue
         rec = dict(function=c.label(), props=c.props, assumed=c.assumed, inline=c.inline)
+        if getattr(c, "proved_in", None):
+            rec["assumed"] = False
+            rec["imported_from"] = c.proved_in
+            rec["status"] = "imported: proved in %s, used here at call sites only" % c.proved_in
+            info.append(rec)
+            continue
         if c.assumed:
             rec["status"] = "assumed (contract trusted at call sites, body not verified)"
             info.append(rec)
@@ -86,7 +92,7 @@ def run_canaries(reg, src):
         except Exception as e:
             out.append(dict(name=name, ok=False, why="canary generation failed: %r" % (e,)))
             continue
-        res = backends.discharge(obs)
+        res = backends.discharge(obs, canary=True)
         bad = [r for r in res if r["verdict"] != "discharged"]
         refuted = [r for r in res if r["verdict"].startswith("refuted")]
         out.append(dict(name=name, ok=bool(bad), refuted=len(refuted), not_discharged=len(bad), obligations=len(obs)))
